@@ -434,11 +434,15 @@ class Connection(ExportImport):
                 del obj._p_oid
                 if obj._p_changed:
                     obj._p_changed = False
-            elif oid in self._creating:
-                # A new object that the failed commit had already stored.
-                # It has no committed state to go back to: invalidating it
-                # would throw its only state away.  _invalidate_creating()
-                # disowns it.
+            elif (oid in self._creating
+                  or (self._savepoint_storage is not None
+                      and oid in self._savepoint_storage.creating)):
+                # A new object that the failed commit, or a savepoint, had
+                # already stored.  It has no committed state to go back to:
+                # invalidating it here would throw its only state away.
+                # The callers disown it (_invalidate_creating) or, for a
+                # rollback to a savepoint that already held it, invalidate
+                # it afterwards so that it reloads its savepoint state.
                 pass
             else:
                 # Note: If we invalidate a non-ghostifiable object
@@ -672,6 +676,15 @@ class Connection(ExportImport):
         for oid in creating:
             o = self._cache.get(oid)
             if o is not None:
+                if o._p_changed is None:
+                    # A ghost (a savepoint rollback made it one).  Its only
+                    # state is in the savepoint storage, which is about to
+                    # go away: load it, so that the object we disown is a
+                    # plain new object again and not an empty shell.
+                    try:
+                        o._p_activate()
+                    except Exception:
+                        pass
                 del self._cache[oid]
                 if o._p_changed:
                     o._p_changed = False
